@@ -244,10 +244,33 @@ Proof.
     rewrite Hd, Hf, Hq, app_nil_r, <- app_assoc. reflexivity.
   - assert (Hne : fS s (deliv st) <> []) by (rewrite Es; discriminate).
     pose proof (x_sd _ _ _ _ HX s Hne) as Hn. apply has_q_filter in Hn.
-    eapply (split_ordered st s); auto.
-    rewrite Hd, Hf, Hq, Hn, app_nil_r, Hs, <- app_assoc. reflexivity.
+    apply (split_ordered st s (filter (of_stream s) (sockpart st ++ lhand (msl st) ++ xitems (map fst (msendch st))))); auto.
+    rewrite Hd, Hf, Hq, Hn, app_nil_r, Hs. rewrite <- app_assoc. reflexivity.
 Qed.
 
 (* THE THEOREM: the order statement at full strength *)
 Theorem order_holds : order_full.
 Proof. intros progs sched s. apply oinv_ordered, orun. Qed.
+
+(* ---------- callback mode: the end-of-stream clause is false (Model/MuxCallback.v) ---------- *)
+From Shm Require Import Model.MuxCallback.
+
+Definition callback_end_full : Prop := forall l, end_after_data (crun l) = true.
+
+(* the peer does write; Flush; Close: both reach the event loop before the callback goroutine runs; the
+   goroutine tests IsOpen(), finds the stream half-closed and never offers the message *)
+Definition wit_c := [AData 7; AClose; AGo; AGo; AGo; AGo; AGo].
+Lemma wit_c_run :
+  let s := crun wit_c in
+  ccalls s = [CRemoteClose] /\ carrived s = [7] /\ crbuf s = [7] /\ cg s = GNone /\ end_after_data s = false.
+Proof. vm_compute. repeat split. Qed.
+Theorem callback_end_refuted : ~ callback_end_full.
+Proof.
+  intros H. assert (E : end_after_data (crun wit_c) = false) by (vm_compute; reflexivity).
+  rewrite (H wit_c) in E. discriminate E.
+Qed.
+(* the same messages with the goroutine scheduled before the close: offered, then the end *)
+Lemma callback_good_run :
+  let s := crun [AData 7; AGo; AGo; AClose; AGo; AGo; AGo] in
+  ccalls s = [COnData [7]; CRemoteClose] /\ end_after_data s = true.
+Proof. vm_compute. repeat split. Qed.
